@@ -6,6 +6,7 @@ import PPProofs.Lemmas.OneOfCaseless
 import PPProofs.Lemmas.CompressedRe
 import PPProofs.Lemmas.RoundTrip
 import PPProofs.Lemmas.WordTwin
+import PPProofs.Lemmas.WordKeyword
 /-!
 # C17 — alternative matching strategies for the same element are equivalent
 
@@ -165,6 +166,28 @@ theorem word_re_spec (a : WordArgs) (w : Word) (r : Re) (h : mkWord a = some w) 
       simp only [Bool.false_eq_true, if_false]
       exact wordReCore_spec ranges_denote _ _ _ _ h1 h2 s loc
 
+/-- **word_re_keyword_spec**: complete description of the regex path when as_keyword is on
+    (`\b core \b`, with backtracking): `\b` must hold at `loc`; then among the run lengths from the capped
+    longest one down to `minLen` (`wordCands`, longest first) the first whose end is a `\b` position. Compare
+    `word_slow_full`: the character loop never backtracks and tests body characters, not `\b`. -/
+theorem word_re_keyword_spec (a : WordArgs) (w : Word) (r : Re) (h : mkWord a = some w)
+    (hr : w.re = some r) (hkw : a.asKeyword = true) (s : List Char) (loc : Nat) :
+    rePath r s loc =
+      if isBoundary s loc then
+        (wordCands w.initSet.contains w.bodySet.contains w.minLen w.maxLen s loc).find?
+          (fun e => isBoundary s e)
+      else none :=
+  WordPaths.word_re_keyword_spec a w r h hr hkw s loc
+
+/-- the candidate end positions in `word_re_keyword_spec` are exactly `loc + minLen .. runEnd` -/
+theorem word_cands_mem (w : Word) (s : List Char) (loc : Nat) (c : Char) (hc : s[loc]? = some c)
+    (hi : w.initSet.contains c = true) (e : Nat) :
+    e ∈ wordCands w.initSet.contains w.bodySet.contains w.minLen w.maxLen s loc ↔
+      loc + w.minLen ≤ e ∧ e ≤ runEnd w.bodySet.contains w.maxLen s loc := by
+  unfold wordCands runEnd
+  rw [hc]; simp only [hi, if_true]
+  exact mem_descFrom
+
 /-- **word_paths_agree_partial**: whichever `parseImpl` is installed, the result is the same —
     PARTIAL: proved outside two regions where the paths really differ (the theorems below are the
     witnesses): (1) `max` given and the capped run is followed by another body character,
@@ -217,6 +240,13 @@ theorem word_askeyword_paths_differ :
     ∃ w, mkWord { init := ['a', 'b'], body := ['c', 'd'], asKeyword := true } = some w ∧
       parseWord w "xacd".toList 1 = none ∧ slowPath w "xacd".toList 1 = some 4 := by
   refine ⟨_, rfl, ?_, ?_⟩ <;> decide
+
+/-- as_keyword on a Word of symbol characters: `Word('+', as_keyword=True)` on `'+'`: the regex path never
+    matches (`\b` fails next to a non-word character), the character loop returns 1 -/
+theorem word_askeyword_symbol_witness :
+    ∃ w, mkWord { init := ['+'], asKeyword := true } = some w ∧
+      parseWord w "+".toList 0 = none ∧ slowPath w "+".toList 0 = some 1 :=
+  WordPaths.word_askeyword_symbol_witness
 
 /-- finding word_exclude_all_body in the model: `Word('a','b',exclude_chars='b')` matches `'aaa'` -/
 theorem word_exclude_all_body_witness :
